@@ -26,6 +26,10 @@ type PermNode struct {
 	ACL      *pb.Acl        // the ACL definition of this account/method
 	Status   ValidateStatus // the ACL validation status of this node
 	Children []*PermNode    // the children of this node, usually are ACL members of account/method
+	// Signer is true if the node is the last component of at least one signer URI. Only the last
+	// component of a URI has its signature verified (see verifySignatures), so an AK that merely
+	// appears in the middle of a URI has not signed anything.
+	Signer bool
 }
 
 // NewPermNode return a default PermNode
@@ -121,6 +125,9 @@ func buildPermTree(root *PermNode, aclMgr base.AclManager,
 			newNode := NewPermNode(akname, accountACL)
 			pnode.Children = append(pnode.Children, newNode)
 			pnode = newNode
+		}
+		if pnode != root {
+			pnode.Signer = true
 		}
 	}
 	return root, nil
